@@ -1,6 +1,7 @@
 (* C17 - the suggested APBS grid encloses the molecule and is multigrid-legal.
    Property theorems only; the model is Model/Psize.v (pdb2pqr/psize.py after
-   commit 54cff74, inputgen.Input/Elec as used by io.dump_apbs), proofs are in
+   commit 54cff74 and the repairs of findings C17-F11, C17-F12 and C17-F13,
+   inputgen.Input/Elec as used by io.dump_apbs), proofs are in
    Proofs/Psize.v.  [QA] is the exact-rational instance of the arithmetic
    record; theorems that mention [ops] hold for every instance (floats too). *)
 From Coq Require Import String Ascii List ZArith QArith Bool.
@@ -77,13 +78,14 @@ Proof. exact double_parse_same_box. Qed.
 
 (* the set_smallest loop ends within the fuel computed from ngrid (never
    ErrFuel); the only exception is the code's own ValueError; on success every
-   entry is 32k+1 (k >= 0), not above ngrid, and the product fits the ceiling *)
+   entry is the integer 32k+1 (k >= 0), not above ngrid, and the product fits
+   the ceiling *)
 Theorem C17_smallest_terminates : forall (p : params (A:=Q)) (mn mx : vec3 Q),
   let ng := ngrid_of QA p mn mx in
-  match smallest QA (smallest_fuel ng) (p_gmemceil p) (map3 PInt ng) with
+  match smallest QA (smallest_fuel ng) (p_gmemceil p) ng with
   | Err e => e = ErrCeiling
   | Ok ns =>
-      (forall i, exists k : Z, (0 <= k)%Z /\ (toA QA (ax i ns) == inject_Z (32 * k + 1))%Q /\
+      (forall i, exists k : Z, (0 <= k)%Z /\ ax i ns = (32 * k + 1)%Z /\
                                (32 * k + 1 <= ax i ng)%Z) /\
       (mem_mb QA ns < p_gmemceil p)%Q
   end.
@@ -94,42 +96,49 @@ Proof. exact smallest_terminates. Qed.
 Theorem C17_smallest_succeeds : forall (p : params (A:=Q)) (mn mx : vec3 Q),
   (200 / 1024 / 1024 < p_gmemceil p)%Q ->
   let ng := ngrid_of QA p mn mx in
-  exists ns, smallest QA (smallest_fuel ng) (p_gmemceil p) (map3 PInt ng) = Ok ns.
+  exists ns, smallest QA (smallest_fuel ng) (p_gmemceil p) ng = Ok ns.
 Proof. exact smallest_succeeds. Qed.
 
 (* whenever Psize.__str__ reports memory figures they are 200*nx*ny*nz/1024/1024
-   for the grid they are reported with, which is ngrid (sequential branch), and
-   they are within the ceiling *)
+   for the grid they are reported with.  That grid is ngrid when it fits the
+   ceiling (sequential solve); otherwise (parallel solve) it is nsmall, whose
+   entries are 32k+1 (k >= 0), not above ngrid, and the figure is under the
+   ceiling *)
 Theorem C17_mem_estimate : forall (p : params (A:=Q)) (st : pstate (A:=Q)) (sz : sizing (A:=Q)) (m : mem_report (A:=Q)),
   set_all QA p st = Ok sz -> report QA p st sz = Ok (Some m) ->
-  r_parallel m = false /\ r_grid m = map3 PInt (s_ngrid sz) /\
-  let '(nx, ny, nz) := s_ngrid sz in
-  (r_est_mb m == 200 * inject_Z (nx * ny * nz) / 1024 / 1024 /\
-  r_per_proc_mb m == 200 * inject_Z (nx * ny * nz) / 1024 / 1024 /\
-  r_est_mb m <= p_gmemceil p)%Q.
+  (let '(nx, ny, nz) := r_grid m in
+   (r_est_mb m == 200 * inject_Z (nx * ny * nz) / 1024 / 1024 /\
+    r_per_proc_mb m == 200 * inject_Z (nx * ny * nz) / 1024 / 1024)%Q) /\
+  (if r_parallel m
+   then r_grid m = s_nsmall sz /\ (p_gmemceil p < mem_mb QA (s_ngrid sz))%Q /\
+        (r_est_mb m < p_gmemceil p)%Q /\
+        (forall i, exists k : Z, (0 <= k)%Z /\ ax i (r_grid m) = (32 * k + 1)%Z /\
+                                 (32 * k + 1 <= ax i (s_ngrid sz))%Z)
+   else r_grid m = s_ngrid sz /\ (r_est_mb m <= p_gmemceil p)%Q).
 Proof. exact mem_estimate. Qed.
 
-(* Full statement (fails): "for every structure with an ATOM record the report
-   is produced".  Refuted: when the grid exceeds the ceiling __str__ formats a
-   float with ':d' and raises (finding C17-F12). *)
-Theorem C17_report_total_refuted :
-  exists (p : params (A:=Q)) (evs : list (event (A:=Q))) (st : pstate (A:=Q)) (sz : sizing (A:=Q)),
-    run_events QA (init_state QA) evs = Ok st /\ set_all QA p st = Ok sz /\
-    (0 < gotatom st)%Z /\ report QA p st sz = Err ErrFmtD.
-Proof. exact report_parallel_refuted. Qed.
-
-(* exact guard: it raises in every parallel case ... *)
-Theorem C17_report_parallel_raises : forall (p : params (A:=Q)) (st : pstate (A:=Q)) (sz : sizing (A:=Q)),
-  set_all QA p st = Ok sz -> (0 < gotatom st)%Z ->
-  (p_gmemceil p < mem_mb QA (map3 PInt (s_ngrid sz)))%Q ->
-  report QA p st sz = Err ErrFmtD.
-Proof. exact report_parallel_raises. Qed.
-
-(* ... and is produced in every sequential case *)
-Theorem C17_report_total_partial : forall (p : params (A:=Q)) (st : pstate (A:=Q)) (sz : sizing (A:=Q)),
-  (0 < gotatom st)%Z -> (mem_mb QA (map3 PInt (s_ngrid sz)) <= p_gmemceil p)%Q ->
+(* for every structure with an ATOM record, every grid and ofrac >= 0 the report
+   is produced, sequential or parallel (full strength since finding C17-F12 was
+   repaired: nsmall and proc_grid are python ints - in the model by their type
+   [vec3 Z], tied to the code by the harness - so no ':d' format can fail, and
+   no division of __str__ is by zero) *)
+Theorem C17_report_total : forall (p : params (A:=Q)) (st : pstate (A:=Q)) (sz : sizing (A:=Q)),
+  set_all QA p st = Ok sz -> (0 <= p_ofrac p)%Q -> (0 < gotatom st)%Z ->
   exists m, report QA p st sz = Ok (Some m).
-Proof. exact report_sequential_ok. Qed.
+Proof. exact report_total. Qed.
+
+(* the former witness of C17-F12 (two atoms 100 A apart, default parameters):
+   a parallel solve, 4 x 3 x 3 processors, 97 x 129 x 129 points each, 307.880 MB *)
+Example C17_report_parallel_witness :
+  let p := mkP (17 # 10) 20 (1 # 2) 200 400 (1 # 10) (1 # 4) in
+  let evs := [EvAtom false (0, 0, 0, 1 # 10, 3 # 2); EvAtom false (100, 100, 100, 1 # 10, 3 # 2)]%Q : list (event (A:=Q)) in
+  exists st sz m,
+    run_events QA (init_state QA) evs = Ok st /\ set_all QA p st = Ok sz /\
+    report QA p st sz = Ok (Some m) /\
+    r_parallel m = true /\ s_ngrid sz = (257, 257, 257)%Z /\
+    r_grid m = (97, 129, 129)%Z /\ s_nproc sz = (4, 3, 3)%Z /\ s_nfocus sz = 3%Z /\
+    r_est_mb m = (40354425 # 131072)%Q.
+Proof. exact report_parallel_witness. Qed.
 
 (* for ALL line lists and every float() behaviour: a line that starts with
    neither ATOM nor HETATM, inserted anywhere, changes no output of run_psize
@@ -147,25 +156,37 @@ Theorem C17_header_lines_filtered : forall (A : Type) (ops : Arith A) (pfloat : 
   parse_lines ops pfloat st (filter is_coord_line lines) = parse_lines ops pfloat st lines.
 Proof. exact (@header_filter). Qed.
 
-(* Full statement (fails): "every ATOM/HETATM line written in the fixed-column
-   layout of Atom.get_pqr_string is measured".  Refuted: y = 1000.000 fills its
-   eight columns, x and y fuse into one word, four words are left and the atom
-   is counted but not measured (finding C17-F11). *)
-Theorem C17_fixed_columns_refuted :
-  exists head xs ys zs qs rs : string,
-    String.length head = 30%nat /\ prefix_of "ATOM" head = true /\
-    clean_tok (strip xs) = true /\ clean_tok (strip ys) = true /\ clean_tok (strip zs) = true /\
-    clean_tok qs = true /\ clean_tok rs = true /\
-    String.length xs = 8%nat /\ String.length ys = 8%nat /\ String.length zs = 8%nat /\
-    forall (A : Type) (pfloat : string -> option A),
-      parse_line pfloat (head ++ pqr_tail xs ys zs qs rs) = EvCount false.
-Proof. exact fixed_columns_refuted. Qed.
+(* every ATOM/HETATM line in the fixed-column layout of Atom.get_pqr_string
+   whose five numbers fit their columns (8, 8, 8, 8, 7 characters; the '.' of a
+   %8.3f coordinate at offset 4 of its field) is measured with exactly the five
+   numbers written, whether or not neighbouring fields touch (full strength
+   since finding C17-F11 was repaired).  [pfloat] is any float() that ignores
+   leading blanks, as python's does. *)
+Theorem C17_fixed_columns_measured : forall (A : Type) (pfloat : string -> option A)
+  (head : string) (a0 a1 a2 a3 a4 : nat) (t0 t1 t2 t3 t4 trail : string) (x y z q r : A),
+  String.length head = 30%nat -> is_coord_line head = true ->
+  clean_tok t0 = true -> clean_tok t1 = true -> clean_tok t2 = true ->
+  clean_tok t3 = true -> clean_tok t4 = true ->
+  (a0 + String.length t0 = 8)%nat -> (a1 + String.length t1 = 8)%nat ->
+  (a2 + String.length t2 = 8)%nat -> (a3 + String.length t3 = 8)%nat ->
+  (a4 + String.length t4 = 7)%nat ->
+  String.get 4 (repeat_char sp a0 ++ t0) = Some "."%char ->
+  String.get 4 (repeat_char sp a1 ++ t1) = Some "."%char ->
+  String.get 4 (repeat_char sp a2 ++ t2) = Some "."%char ->
+  all_chars is_ws trail = true ->
+  (forall n t, pfloat (repeat_char sp n ++ t)%string = pfloat t) ->
+  pfloat t0 = Some x -> pfloat t1 = Some y -> pfloat t2 = Some z ->
+  pfloat t3 = Some q -> pfloat t4 = Some r ->
+  parse_line pfloat
+    (head ++ (repeat_char sp a0 ++ t0) ++ (repeat_char sp a1 ++ t1) ++ (repeat_char sp a2 ++ t2) ++
+     (repeat_char sp a3 ++ t3) ++ (repeat_char sp a4 ++ t4) ++ trail)%string
+  = EvAtom (negb (prefix_of "ATOM" head)) (x, y, z, q, r).
+Proof. exact (@parse_line_fixed_columns). Qed.
 
-(* exact guard: when each of the five fields after column 30 is kept apart from
-   its predecessor by a blank or its own minus sign (whitespace layout always;
-   fixed layout iff no field fills its columns with a non-negative number),
-   the line is measured with exactly the five written numbers *)
-Theorem C17_fixed_columns_partial : forall (A : Type) (pfloat : string -> option A)
+(* any layout (the --whitespace layout in particular): when each of the five
+   fields after column 30 is kept apart from its predecessor by a blank or its
+   own minus sign, the line is measured with exactly the five written numbers *)
+Theorem C17_separated_fields_measured : forall (A : Type) (pfloat : string -> option A)
   (head : string) (a0 a1 a2 a3 a4 : nat) (t0 t1 t2 t3 t4 trail : string) (x y z q r : A),
   String.length head = 30%nat -> is_coord_line head = true ->
   clean_tok t0 = true -> clean_tok t1 = true -> clean_tok t2 = true ->
@@ -180,6 +201,58 @@ Theorem C17_fixed_columns_partial : forall (A : Type) (pfloat : string -> option
      repeat_char sp a3 ++ t3 ++ repeat_char sp a4 ++ t4 ++ trail)%string
   = EvAtom (negb (prefix_of "ATOM" head)) (x, y, z, q, r).
 Proof. exact (@parse_line_separated). Qed.
+
+(* whitespace-delimited records - the decimal points are not in the PDB
+   coordinate columns 34/42/50, as in both --whitespace layouts: [render fs trail]
+   writes the words of [fs], each after its number of blanks.  Whatever words
+   precede the five numbers after column 30 (the insertion code of a
+   --whitespace record, tokens pushed right by wide fields), the LAST five
+   words are measured, provided every word after the first is kept apart from
+   its predecessor by a blank or its own minus sign (finding C17-F13 repaired) *)
+Theorem C17_ws_tail_measured : forall (A : Type) (pfloat : string -> option A)
+  (head : string) (pre : list (nat * string)) (a0 a1 a2 a3 a4 : nat) (t0 t1 t2 t3 t4 trail : string)
+  (x y z q r : A),
+  let fs := (pre ++ [(a0, t0); (a1, t1); (a2, t2); (a3, t3); (a4, t4)])%list in
+  String.length head = 30%nat -> is_coord_line head = true ->
+  Forall (fun f => clean_tok (snd f) = true) fs ->
+  Forall kept_apart (tl fs) ->
+  all_chars is_ws trail = true ->
+  coord_dots (head ++ render fs trail) = false ->
+  pfloat t0 = Some x -> pfloat t1 = Some y -> pfloat t2 = Some z ->
+  pfloat t3 = Some q -> pfloat t4 = Some r ->
+  parse_line pfloat (head ++ render fs trail) = EvAtom (negb (prefix_of "ATOM" head)) (x, y, z, q, r).
+Proof. exact (@parse_line_ws_tail). Qed.
+
+(* non-vacuity: --whitespace records (a blank at every field boundary) with a
+   letter / a digit / no insertion code at index 30 *)
+Example C17_ws_tail_witness :
+  let tab := [("1.000", Some (1 # 1)); ("2.000", Some (2 # 1)); ("3.000", Some (3 # 1)); ("1", Some (1 # 1));
+              ("0.5000", Some (1 # 2)); ("1.5000", Some (3 # 2)); ("-10.5000", Some (-21 # 2));
+              ("1000.000", Some (1000 # 1)); ("-999.999", Some (-999999 # 1000))]%string%Q in
+  parse_line (pfloat_tab tab) "ATOM       1  CA   ALA A   12 B      1.000    2.000    3.000   0.5000  1.5000"
+    = EvAtom false (1 # 1, 2 # 1, 3 # 1, 1 # 2, 3 # 2)%Q /\
+  parse_line (pfloat_tab tab) "HETATM 12345  O    HOH A 1000 1   1000.000 -999.999    3.000 -10.5000  1.5000"
+    = EvAtom true (1000 # 1, -999999 # 1000, 3 # 1, -21 # 2, 3 # 2)%Q /\
+  parse_line (pfloat_tab tab) "ATOM       1  CA   ALA     12        1.000    2.000    3.000   0.5000  1.5000"
+    = EvAtom false (1 # 1, 2 # 1, 3 # 1, 1 # 2, 3 # 2)%Q.
+Proof. exact ws_tail_witness. Qed.
+
+(* non-vacuity of C17_fixed_columns_measured: the former witness of C17-F11
+   (y = 1000.000 fuses with x), a record whose five numbers all run together,
+   both measured by a table-driven float() that strips leading blanks; and the
+   first line is what the writer's column code (pqr_tail) produces *)
+Example C17_fixed_columns_witness :
+  let tab := [("12.345", Some (12345 # 1000)); ("1000.000", Some (1000 # 1)); ("5.000", Some (5 # 1));
+              ("0.1000", Some (1 # 10)); ("1.5000", Some (3 # 2)); ("1234.567", Some (1234567 # 1000));
+              ("100.0000", Some (100 # 1)); ("10.0000", Some (10 # 1))]%string%Q in
+  parse_line (pfloat_tab tab) "ATOM      2  CA  ALA     2      12.3451000.000   5.000  0.1000 1.5000"
+    = EvAtom false (12345 # 1000, 1000 # 1, 5 # 1, 1 # 10, 3 # 2)%Q /\
+  parse_line (pfloat_tab tab) "HETATM    2  CA  ALA     2    1234.5671000.0001234.567100.000010.0000"
+    = EvAtom true (1234567 # 1000, 1000 # 1, 1234567 # 1000, 100 # 1, 10 # 1)%Q /\
+  ("ATOM      2  CA  ALA     2    " ++ pqr_tail "  12.345" "1000.000" "   5.000" "0.1000" "1.5000"
+    = "ATOM      2  CA  ALA     2      12.3451000.000   5.000  0.1000 1.5000")%string /\
+  (forall n t, pfloat_tab tab (repeat_char sp n ++ t)%string = pfloat_tab tab t).
+Proof. split; [|split; [|split]]; [apply fixed_columns_witness .. | apply pfloat_tab_blanks]. Qed.
 
 (* the input file written by io.dump_apbs opens with the read section naming
    Path(pqrpath).name, and for dir/name paths that is name *)
@@ -213,7 +286,7 @@ Example C17_nonvacuous :
   exists st sz m,
     run_events QA (init_state QA) evs = Ok st /\ set_all QA p st = Ok sz /\
     report QA p st sz = Ok (Some m) /\
-    (1 <= p_cfac p)%Q /\ (0 <= p_fadd p)%Q /\
+    (1 <= p_cfac p)%Q /\ (0 <= p_fadd p)%Q /\ (0 <= p_ofrac p)%Q /\
     gotatom st = 2%Z /\ gothet st = 1%Z /\
     box st = Some ((-3 # 2, -3 # 2, -3 # 2), (23 # 2, 23 # 2, 23 # 2))%Q /\
     s_ngrid sz = (33, 33, 33)%Z /\ s_center sz = (5, 5, 5)%Q /\
@@ -233,13 +306,15 @@ Print Assumptions C17_double_parse_same_box.
 Print Assumptions C17_smallest_terminates.
 Print Assumptions C17_smallest_succeeds.
 Print Assumptions C17_mem_estimate.
-Print Assumptions C17_report_total_refuted.
-Print Assumptions C17_report_parallel_raises.
-Print Assumptions C17_report_total_partial.
+Print Assumptions C17_report_total.
+Print Assumptions C17_report_parallel_witness.
 Print Assumptions C17_header_lines_ignored.
 Print Assumptions C17_header_lines_filtered.
-Print Assumptions C17_fixed_columns_refuted.
-Print Assumptions C17_fixed_columns_partial.
+Print Assumptions C17_fixed_columns_measured.
+Print Assumptions C17_separated_fields_measured.
+Print Assumptions C17_fixed_columns_witness.
+Print Assumptions C17_ws_tail_measured.
+Print Assumptions C17_ws_tail_witness.
 Print Assumptions C17_input_names_pqr.
 Print Assumptions C17_basename.
 Print Assumptions C17_input_grid_lines.
